@@ -149,7 +149,14 @@ def gen_case(rng):
     else:
         sel = 'self'
 
+    # an explicit list of entities is given in the caller's order, which need
+    # not be the order of creation (nor sorted): the states come back in it
+    order_ = list(range(n))
+    if sel == 'list' and n > 1 and rng.random() < 0.6:
+        rng.shuffle(order_)
+
     return {'api': api, 'entities': ents, 'requested': req, 'select': sel,
+            'list_order': order_,
             'timeout': rng.choice([None, None, 0.05, 1, 10])}
 
 
@@ -185,6 +192,10 @@ def run_case(case, res):
 
     uids = [e['uid'] for e in case['entities']]
     if   case['select'] == 'single': awaited = uids[:1]
+    elif case['select'] == 'list'  :
+        awaited = [uids[i] for i in case.get('list_order') or range(len(uids))]
+        if awaited != uids:
+            res.count('lists_not_in_creation_order')
     else                           : awaited = uids
     if api == 'pmgr' and case['select'] == 'all':
         # documented: `uids=None` means all pilots not yet final at call time
@@ -237,7 +248,7 @@ def run_case(case, res):
         if   api == 'task' : ret = objs[uids[0]].wait(**kw)
         elif api == 'pilot': ret = objs[uids[0]].wait(**kw)
         else:
-            sel = {'all': None, 'list': list(uids),
+            sel = {'all': None, 'list': list(awaited),
                    'single': uids[0]}[case['select']]
             if api == 'tmgr': ret = tm.wait_tasks (uids=sel, **kw)
             else            : ret = pm.wait_pilots(uids=sel, **kw)
